@@ -67,10 +67,12 @@ class ConstantExpressionEvaluator:
                 declarations.VariableDeclaration,
                 declarations.FunctionDeclaration,
             ),
-        ):
+        ) and isinstance(expr.typ, (types.ArrayType, types.FunctionType)):
+            # An array or a function stands for its address:
             value = self.eval_global_access(declaration)
         else:
-            raise NotImplementedError(str(expr.variable))
+            # The value of an object is not a constant.
+            self.not_constant(expr)
         return value
 
     def eval_enum(self, declaration):
@@ -95,11 +97,30 @@ class ConstantExpressionEvaluator:
 
     def eval_cast(self, expr):
         """Evaluate cast expression."""
-        value = self.eval_expr(expr.expr)
+        if isinstance(expr.expr.typ, (types.ArrayType, types.FunctionType)):
+            # Array to pointer decay, or function to function pointer:
+            value = self.eval_address(expr.expr)
+        else:
+            value = self.eval_expr(expr.expr)
 
         # do some real casting:
-        if expr.typ.is_integer:
+        ptr_size = self.context.arch_info.get_size("ptr")
+        if self.is_address(value):
+            # An address remains an address in a pointer, or in an integer
+            # type as wide as a pointer.
+            if not (
+                expr.typ.is_pointer
+                or (
+                    expr.typ.is_integer
+                    and self.context.sizeof(expr.typ) == ptr_size
+                )
+            ):
+                self.not_constant(expr)
+        elif expr.typ.is_integer:
             value = int(value)
+        elif expr.typ.is_pointer and isinstance(value, int):
+            # Pointer values are unsigned
+            value &= (1 << (ptr_size * 8)) - 1
         elif expr.typ.is_float or expr.typ.is_double:
             value = float(value)
         else:
@@ -110,6 +131,8 @@ class ConstantExpressionEvaluator:
         """Evaluate unary operation."""
         if expr.op in ["-", "~"]:
             a = self.eval_expr(expr.a)
+            if self.is_address(a):
+                self.not_constant(expr)
             op_map = {
                 "-": lambda x: -x,
                 "~": lambda x: ~x,
@@ -237,6 +260,14 @@ class ConstantExpressionEvaluator:
             return int(bool(lhs) or bool(self.eval_expr(expr.b)))
         rhs = self.eval_expr(expr.b)
 
+        if (
+            expr.a.typ.is_pointer
+            or expr.b.typ.is_pointer
+            or self.is_address(lhs)
+            or self.is_address(rhs)
+        ):
+            return self.eval_pointer_binop(expr, lhs, rhs)
+
         op_map = {
             "+": lambda x, y: x + y,
             "-": lambda x, y: x - y,
@@ -276,6 +307,70 @@ class ConstantExpressionEvaluator:
                 )
 
         value = op_map[op](lhs, rhs)
+        return value
+
+    def eval_pointer_binop(self, expr, lhs, rhs):
+        """Evaluate a binary operator on pointer values.
+
+        A pointer value is an address constant, or an integer which was
+        casted to a pointer.
+        """
+        op = expr.op
+        for value in (lhs, rhs):
+            if not (self.is_address(value) or isinstance(value, int)):
+                self.not_constant(expr)
+
+        # Note that an address can sit in an integer type as well:
+        a_ptr = expr.a.typ.is_pointer or self.is_address(lhs)
+        b_ptr = expr.b.typ.is_pointer or self.is_address(rhs)
+
+        if (op == "+" and a_ptr != b_ptr) or (
+            op == "-" and a_ptr and not b_ptr
+        ):
+            # pointer + integer, integer + pointer or pointer - integer
+            if b_ptr:
+                lhs, rhs, ptr_typ = rhs, lhs, expr.b.typ
+            else:
+                ptr_typ = expr.a.typ
+            if ptr_typ.is_pointer:
+                rhs *= self.context.sizeof(ptr_typ.element_type)
+            value = self.offset_address(lhs, -rhs if op == "-" else rhs)
+        elif self.is_address(lhs) != self.is_address(rhs):
+            # An address compared with the null pointer:
+            if op in ("==", "!=") and (lhs == 0 or rhs == 0):
+                value = int(op == "!=")
+            else:
+                self.not_constant(expr)
+        else:
+            if self.is_address(lhs):
+                # Two addresses relative to the same label have a distance
+                # and an order:
+                if lhs[1] != rhs[1]:
+                    self.not_constant(expr)
+                lhs = lhs[2] if len(lhs) > 2 else 0
+                rhs = rhs[2] if len(rhs) > 2 else 0
+            compare_map = {
+                "<": lambda x, y: int(x < y),
+                ">": lambda x, y: int(x > y),
+                "<=": lambda x, y: int(x <= y),
+                ">=": lambda x, y: int(x >= y),
+                "==": lambda x, y: int(x == y),
+                "!=": lambda x, y: int(x != y),
+            }
+            if op in compare_map:
+                value = compare_map[op](lhs, rhs)
+            elif op == "-":
+                # The distance between two pointers, in elements:
+                value = lhs - rhs
+                if expr.a.typ.is_pointer:
+                    element_size = self.context.sizeof(
+                        expr.a.typ.element_type
+                    )
+                    if element_size == 0:
+                        self.not_constant(expr)
+                    value = self.int_div(value, element_size)
+            else:
+                self.not_constant(expr)
         return value
 
     @staticmethod
